@@ -175,13 +175,14 @@ type bufScratch struct {
 // bufRunFast is bufRun without the explanation and without per-run allocations in
 // the harness (same oracle, same order of calls); used by the exhaustive sweep,
 // which re-runs a failing sequence through bufRun for the message. len(ops) <= 64.
-func bufRunFast(initial, bsize int, ops []bufOp, sc *bufScratch) (bad, grewAndShrank bool) {
+// Operations are one byte each: 'A', 'F', 'R', 'L', 'G' (Range over everything), 'S' (Range stopping after 1).
+func bufRunFast(initial, bsize int, ops []byte, sc *bufScratch) (bad, grewAndShrank bool) {
 	b := ring.NewBuffered[int](initial, bsize)
 	head, tail := 0, 0 // queue = sc.q[head:tail]
 	capM, bs := max(initial, 1), max(bsize, 1)
 	grew, shrank := false, false
 	for _, o := range ops {
-		switch o.Kind {
+		switch o {
 		case 'A':
 			sc.vals[tail] = tail + 1
 			p := &sc.vals[tail]
@@ -219,9 +220,12 @@ func bufRunFast(initial, bsize int, ops []bufOp, sc *bufScratch) (bad, grewAndSh
 			if b.Len() != tail-head {
 				return true, false
 			}
-		case 'G':
+		case 'G', 'S':
 			n := 0
-			stop := o.Stop
+			stop := 0
+			if o == 'S' {
+				stop = 1
+			}
 			b.Range(func(p *int) bool {
 				if n < len(sc.got) {
 					sc.got[n] = p
@@ -337,17 +341,26 @@ func TestBufferedExhaustive(t *testing.T) {
 				if stop {
 					continue
 				}
+				const letters = "ARFLGS" // same order as alphabet
 				digits := make([]int, L)
 				digits[0], digits[1] = u.first, u.second
+				code := make([]byte, L)
+				for i, d := range digits {
+					code[i] = letters[d]
+				}
 				var scratch bufScratch
-				ops := make([]bufOp, L)
 				var trivial int64
-				for {
+				explain := func() []bufOp {
+					ops := make([]bufOp, L)
 					for i, d := range digits {
 						ops[i] = alphabet[d]
 					}
-					bad, nt := bufRunFast(u.initial, u.bsize, ops, &scratch)
+					return ops
+				}
+				for {
+					bad, nt := bufRunFast(u.initial, u.bsize, code, &scratch)
 					if bad {
+						ops := explain()
 						msg, _ := bufRun(u.initial, u.bsize, ops, false) // same deterministic run, with the explanation
 						if msg == "" {
 							msg = "fast and explaining runs disagree (harness error)"
@@ -360,7 +373,7 @@ func TestBufferedExhaustive(t *testing.T) {
 						break
 					}
 					if nt {
-						enc := fmt.Sprintf("NewBuffered(%d,%d): %s", u.initial, u.bsize, opsString(ops))
+						enc := fmt.Sprintf("NewBuffered(%d,%d): %s", u.initial, u.bsize, opsString(explain()))
 						sec.Case(true, vk.FP(enc), "buffered.grew-and-shrank")
 						sec.Sample(func() any { return enc })
 					} else {
@@ -370,10 +383,12 @@ func TestBufferedExhaustive(t *testing.T) {
 					i := L - 1
 					for ; i >= 2; i-- {
 						digits[i]++
-						if digits[i] < len(alphabet) {
+						if digits[i] < len(letters) {
+							code[i] = letters[digits[i]]
 							break
 						}
 						digits[i] = 0
+						code[i] = letters[0]
 					}
 					if i < 2 {
 						break
